@@ -214,7 +214,7 @@ def body_units(d, n, ndecl):
 
 
 def build_lines(d, n, ctx):
-    name = "test.c"
+    name = "test.h" if ctx.get("in_header") else "test.c"
     ndecl = ctx["ndecl"] if n - (ctx["ndecl"] + 1) >= 1 else 0
     decls = ["\tint\tv%d;" % i for i in range(ndecl)]
     body = decls + ([""] if ndecl else []) + body_units(d, n, ndecl)
@@ -226,7 +226,7 @@ def build_lines(d, n, ctx):
             funcs.append(["int\tft_measured(int a)", "{"] + body + ["}"])
         else:
             funcs.append(simple_func("ft_o%d" % k, ctx["other_sizes"][k % len(ctx["other_sizes"])]))
-    lines = hdr(name)
+    lines = hdr(name) + (["#ifndef TEST_H", "# define TEST_H", ""] if ctx.get("in_header") else [])
     span = None
     for k, f in enumerate(funcs):
         if k:
@@ -235,6 +235,8 @@ def build_lines(d, n, ctx):
         lines += f
         if k == ctx["which"]:
             span = (start, len(lines))
+    if ctx.get("in_header"):
+        lines += ["", "#endif"]
     return name, "\n".join(lines) + "\n", span
 
 
@@ -317,7 +319,7 @@ def context(d):
                        "depth": d.int(1, 4), "nest_kw": d.choice(["if", "while"]), "salt": d.int(0, 11), "pos": d.choice(["first", "interior"])}, d
     if limit == "lines":
         nf = d.int(1, 5)
-        return limit, {"ndecl": d.int(0, 5), "nfuncs": nf, "which": d.int(0, nf - 1), "other_sizes": [d.int(1, 25) for _ in range(3)]}, d
+        return limit, {"ndecl": d.int(0, 5), "nfuncs": nf, "which": d.int(0, nf - 1), "other_sizes": [d.int(1, 25) for _ in range(3)], "in_header": d.bool(0.25)}, d
     if limit == "funcs":
         return limit, {"protos": d.bool(0.4), "sizes": [d.int(1, 6) for _ in range(4)]}, d
     if limit == "params":
@@ -329,7 +331,7 @@ def ctx_class(limit, ctx):
     if limit == "cols":
         return "%s/%s%s" % (ctx["kind"], ctx["ftype"], ("/d%d" % ctx["depth"]) if ctx["kind"].startswith(("stmt", "ctrl")) else "")
     if limit == "lines":
-        return "f%d/of%d/decl%d" % (ctx["which"], ctx["nfuncs"], ctx["ndecl"])
+        return "f%d/of%d/decl%d%s" % (ctx["which"], ctx["nfuncs"], ctx["ndecl"], "/in-header" if ctx.get("in_header") else "")
     if limit == "funcs":
         return "protos" if ctx["protos"] else "plain"
     if limit == "params":
